@@ -365,6 +365,26 @@ def rule_histories(ctx, tci):
         ctx.check(ok, R, "selection.room[%s]" % mlabel, repo.find_method(compci, "add_note").where(),
                   "Composition.add_note('C') to [empty track, track whose %s bar holds %s]" % (mlabel, "+".join("1/%s" % x for x in fill)), why)
 
+    # (g2d) a chord of as many notes as a guitar has strings, every one in its range, is accepted (six is not "too many")
+    for nlabel, chord in (("six notes", ["E-3", "A-3", "D-4", "G-4", "B-4", "E-5"]), ("five notes", ["A-3", "D-4", "G-4", "B-4", "E-5"]), ("one note", ["E-7"])):
+        def go_six(it, chord=chord):
+            t = new(it, tci, new(it, imod.cls("Guitar")))
+            r = outcome(it, lambda: it.call_method(t, "add_notes", [list(chord), 4], {}, None))
+            c = new(it, compci)
+            t2 = new(it, tci, new(it, imod.cls("Guitar")))
+            it.call_method(c, "add_track", [t2], {}, None)
+            r2 = outcome(it, lambda: it.call_method(c, "add_note", [new(it, nci, list(chord))], {}, None))
+            return r, _flatten(t)[0], r2, _flatten(t2)[0]
+        v, err = run1("guitar chord of %s" % nlabel, go_six)
+        ok, why = err is None, err
+        if ok:
+            r, entries, r2, entries2 = v
+            if r != ("return", True) or len(entries) != 1 or len(entries[0][1]) != len(chord):
+                ok, why = False, "Track(Guitar()).add_notes(%s) gives %s and the track holds %s" % (chord, r, [(str(e[0]), e[1]) for e in entries])
+            elif r2[0] != "return" or len(entries2) != 1 or len(entries2[0][1]) != len(chord):
+                ok, why = False, "Composition.add_note(<container of %s>) on a guitar track gives %s and the track holds %s" % (chord, r2, [(str(e[0]), e[1]) for e in entries2])
+        ctx.check(ok, R, "guitar-chord[%s]" % nlabel, repo.find_method(tci, "add_notes").where(), "a chord of %s inside the guitar's range, through the track and the composition" % nlabel, why)
+
     # (g3) every form a track takes is taken by the composition for each selected track that has an instrument
     for flabel, mk, pitches in (("'C'", lambda it: "C", (48,)), ("['C', 'E']", lambda it: ["C", "E"], (48, 52)), ("[['C', 5]]", lambda it: [["C", 5]], (60,)),
                                 ("Note('D', 4)", lambda it: new(it, noteci, "D", 4), (50,)), ("NoteContainer(['C', 'G'])", lambda it: new(it, nci, ["C", "G"]), (48, 55))):
